@@ -74,9 +74,10 @@ ShapeTiny33 == {Sh(3, 3, TagsTiny)}                                        \* th
 ShapeSmall33 == {Sh(3, 3, TagsSmall)}                                      \* the complete product, six tags
 \* long rule lists x one tag, one rule x long tag lists
 ShapeCross == {Sh(3, 1, TagsQ), Sh(1, 3, TagsSmall), Sh(2, 2, TagsTiny)}
-ShapeCrossM == {Sh(3, 1, TagsMid), Sh(2, 2, TagsSmall), Sh(1, 3, TagsSmall)}
+ShapeCrossM == {Sh(3, 1, TagsQ), Sh(2, 2, TagsSmall), Sh(1, 3, TagsSmall)}
+ShapeCrossL == {Sh(3, 1, TagsMid), Sh(2, 2, TagsSmall), Sh(1, 3, TagsSmall)}
 ShapeCrossT == {Sh(3, 1, TagsAll), Sh(2, 2, TagsSmall), Sh(1, 3, TagsSmall)}
 \* big template alphabets
 ShapeWide == {Sh(1, 1, TagsAll), Sh(1, 2, TagsSmall)}
-ShapeWideT == {Sh(1, 1, TagsAll), Sh(1, 2, TagsSmall), Sh(2, 1, TagsMid)}
+ShapeWideT == {Sh(1, 1, TagsAll), Sh(1, 2, TagsSmall), Sh(2, 1, TagsQ)}
 =============================================================================
